@@ -107,6 +107,24 @@ def gen(rng, tier):
         below = [b for b in paths_for(d2) if b[:len(loc)] == loc and len(b) > len(loc) + 1]
         if below:
             yield {"mode": True, "ops": [["add", "/k9", 1], ["move", rfc6901_spell(loc + [i]), rfc6901_spell(rng.choice(below))]], "doc": doc}
+    # a container is added and later operations of the same patch work inside it
+    for _ in range(1500 if thorough else 150):
+        doc = gen_container(rng, 2, 3, ["a", "b", "0", "1"])
+        base = rfc6901_spell(rng.choice([p for p in paths_for(doc) if len(p) <= 2]))
+        inner = rng.choice([{"items": []}, [], {}, [[1]], {"k": {"m": [True]}}])
+        ops = [[rng.choice(["add", "add", "replace"]), base, inner]]
+        for _ in range(rng.randint(1, 3)):
+            sub = rng.choice(["/items/-", "/-", "/k", "/0", "/items", "/k/m/0", "/0/-", "/z"])
+            kind = rng.choice(["add", "add", "replace", "remove", "copy", "move", "test"])
+            if kind in ("add", "replace"):
+                ops.append([kind, base + sub, rng.choice(VALUES)])
+            elif kind == "remove":
+                ops.append([kind, base + sub])
+            elif kind == "test":
+                ops.append([kind, base, deep(inner)])
+            else:
+                ops.append([kind, base + sub, base + rng.choice(["/c2", "/-", "/items/0"])])
+        yield {"mode": True, "ops": ops, "doc": doc}
     # histories
     names = ["a", "b", "0", "1", "2", "-", "01", "", "~", "/", "é", "10"]
     for _ in range(6000 if thorough else 500):
@@ -184,6 +202,10 @@ def impl(case):
     except Exception as e:  # noqa: BLE001
         return {"build": ["err", exc_name(e)]}
     out = {"build": ["ok", [dict_to_op(d) for d in patch.asdicts()]]}
+    try:
+        patch.apply(deep(case["doc"]))       # the patch object is not new: it was applied to an equal document before
+    except Exception:  # noqa: BLE001
+        pass
     try:
         res = patch.apply(doc)
         out["apply"] = ["ok", SX.canon(res)]
